@@ -192,7 +192,19 @@ def _check_case(case):
     return {"nontrivial": nontrivial, "labels": labs}
 
 
+def _interrupted_sweep_cases():
+    from props import C12
+    return C12._sweep_cases().map(lambda c: dict(c, entry='verify_signable', kind=c["kind"] if c["kind"] in ['valid', 'invalid'] else 'valid'))
+
+
+def check_interrupted_sweep(case):
+    from props import C12
+    return C12.check_fault_sweep(case)
+
+
 UNITS = [
+    Unit("interrupted_sweep", check_interrupted_sweep, strategy=_interrupted_sweep_cases, quick=18, thorough=500, shards_quick=3,
+         doc="every line event and every C-level call of one verify_signable interrupted once on a fresh envelope, each followed by a normal retry of the same envelope"),
     Unit("roundtrip", check_case, strategy=_cases, quick=800, thorough=24000,
          essential=["strict-edit", "neutral-edit", "signers=2", "stale=1"],
          doc="wrap, sign (any order, repeats), full differential against RFC 8032 reference, thresholds, edits"),
